@@ -89,7 +89,7 @@ def main():
     TIMEOUT = 60000 if quick else 300000
     run = Run("C19", a.tier, "translation_validation")
     requests = ["energy2", "amp2_ph", "re_res2", "ovl_pre2", "m_phph2", "mvp_ph1", "singles1", "dens2",
-                "wf_products", "rename_cfg"]
+                "wf_products", "rename_cfg", "m_phph0", "ev0"]
     if not quick:
         requests += ["energy3", "amp2_pphh", "m_ip_hphh1", "tm_ph2", "itmd_t2_2"]
     if a.replay:
@@ -186,7 +186,7 @@ def main():
          "source_sha": driver.src_hash(*FILES)}]
     run.cov["bounds"] = {
         "requests": requests, "hash seeds": hashseeds, "histories per seed": n_hist,
-        "history": "4-34 seeded calls from a menu of 12 API calls (energies, wavefunctions, generic / named index requests, precursor states, intermediate expansion, norm factors, simplify, matrix blocks, substitute_contracted)",
+        "history": "4-34 seeded calls from a menu of 16 API calls (energies, wavefunctions, generic / named index requests, precursor states, intermediate expansion, norm factors, simplify, matrix blocks, substitute_contracted, and the requests' own methods with the same arguments on objects with another partitioning / variant / singles setting)",
         "tensor names": ALT_NAMES, "models": "<= 2o2v", "z3_timeout_ms": TIMEOUT,
         "crosshair": "registry cell with a two-letter alphabet, generation counter 3..5, arbitrary status (free / pending / handed out) of the six lowest generic names, requests of 1-2 (thorough 3) generic indices"}
     run.cov["rule"] = "one case per (request, hash seed, history, configuration); bounded sample of seeds and histories"
